@@ -113,6 +113,35 @@ class Check(object):
         self.stats[key] = self.stats.get(key, 0) + value
 
 
+def run_rules(ck, mod):
+    """Run the rules of the property, then the closed-world rules shared by all properties (rules/closed_world.py), then
+    finish().  An AnalysisError of either part is raised only if no finding was established (findings stand, the run is
+    then marked incomplete)."""
+    from .model import AnalysisError
+    err = None
+    ov = ck.prog.unmodelled_overrides()
+    if ov:
+        raise AnalysisError("new method override(s) in the class hierarchy are not modelled: %s" % "; ".join(ov[:3]))
+    try:
+        mod.check(ck)
+    except AnalysisError as ex:
+        err = ex
+    try:
+        from rules import closed_world
+        closed_world.check(ck)
+    except AnalysisError as ex:
+        err = err or ex
+    try:
+        ck.finish()
+    except AnalysisError as ex:
+        err = err or ex
+    if err is not None:
+        if not ck.findings:
+            raise err
+        if ck.analysis_error is None:
+            ck.analysis_error = err
+
+
 def load_known():
     if not os.path.exists(KNOWN_FILE):
         return []
